@@ -295,18 +295,55 @@ func ruleC10CteReentry(c *Ctx) {
 		s = strings.ReplaceAll(s, "alloc:", "")
 		return regNameRe.ReplaceAllString(s, "")
 	}
+	// a guard value is a closure that fails on every path (it never evaluates anything)
+	isGuard := func(t *Term) bool {
+		g := t
+		for g != nil && (g.Op == "conv" || g.Op == "iface" || g.Op == "changetype") && len(g.Args) == 1 {
+			g = g.Args[0]
+		}
+		if g == nil || g.Op != "closure" {
+			return false
+		}
+		mc, isMC := g.V.(*ssa.MakeClosure)
+		if !isMC {
+			return false
+		}
+		gf := mc.Fn.(*ssa.Function)
+		gp, err := WalkFunc(gf, WalkCfg{MaxVisits: 1})
+		if err != nil || len(gp) == 0 {
+			return false
+		}
+		for _, q := range gp {
+			if q.Exit != "return" || len(q.Ret) != 2 || q.Ret[1].Nil {
+				return false
+			}
+			for _, e := range q.Effects {
+				if e.Kind == "call" && !strings.HasPrefix(e.Callee, "builtin:") && !strings.HasPrefix(e.Callee, "fmt.") && !strings.HasSuffix(e.Callee, ".Extend") && !strings.HasSuffix(e.Callee, ".String") {
+					return false
+				}
+			}
+		}
+		return true
+	}
 	for _, p := range paths {
 		guarded := false
+		first := true
 		for _, e := range p.Effects {
 			if e.Kind == "mapupdate" && norm(e.Args[1].String()) == norm(regKey) {
-				guarded = true
+				// the entry holds the guard from the first replacement until the result is stored; any other
+				// value (the original thunk put back, say) re-opens the recursion for the calls that follow
+				guarded = isGuard(e.Args[2])
 			}
-			if e.Kind == "call" && !strings.HasPrefix(e.Callee, "builtin:") && !isPureCall(e.Callee) && !strings.Contains(e.Callee, "sqlparser") && !strings.HasSuffix(e.Callee, ".String") {
+			if e.Kind == "call" && !strings.HasPrefix(e.Callee, "builtin:") && !isPureCall(e.Callee) && !strings.Contains(e.Callee, "sqlparser") && !strings.HasSuffix(e.Callee, ".String") && !strings.HasSuffix(e.Callee, ".Extend") && !strings.HasPrefix(e.Callee, "fmt.") {
 				n++
 				if !guarded {
-					ok, why = false, "the thunk calls "+e.Callee+" before replacing its own entry: a CTE that refers to itself recurses without bound"
+					if first {
+						ok, why = false, "the thunk calls "+e.Callee+" before replacing its own entry by a failing guard: a CTE that refers to itself recurses without bound"
+					} else {
+						ok, why = false, "the thunk calls "+e.Callee+" after its own entry stopped being the failing guard: a reference to the CTE from inside its body (evaluated by that call) recurses without bound"
+					}
 				}
-				break
+				first = false
 			}
 		}
 	}
